@@ -18,6 +18,8 @@ DESIGN_REF = 'DESIGN.md section 4, C18'
 
 
 def run(ck):
+    if getattr(ck, 'depth', 0) >= 2:
+        return      # a shared run of a shared run: nothing of it is selected, and mutual sharing must end somewhere
     F = ck.facts
     L = F.lib
     B = F.bin
